@@ -69,6 +69,22 @@ Record TreeInv (sb sl : mst) (phi : nat -> option nat) : Prop := mkTreeInv {
   ti_dirs : forall k r n, lookup sb k = Some r -> get_node sb r = Some n -> ndir n = true -> ndata n = []
 }.
 
+(* the same without the clause on the bytes: what survives while a copy into the layer is under way *)
+Record TreeShape (sb sl : mst) (phi : nat -> option nat) : Prop := mkTreeShape {
+  ts_wfb : WF sb;
+  ts_wfl : WF sl;
+  ts_key : forall k rl, lookup sl k = Some rl -> exists rb, phi rl = Some rb /\ lookup sb k = Some rb;
+  ts_pair : forall rl rb, phi rl = Some rb ->
+            exists nl nb, get_node sl rl = Some nl /\ get_node sb rb = Some nb /\ ndir nl = ndir nb;
+  ts_live : forall rl rb k, phi rl = Some rb -> lookup sb k = Some rb -> lookup sl k = Some rl;
+  ts_inj : forall a b x, phi a = Some x -> phi b = Some x -> a = b;
+  ts_dirs : forall k r n, lookup sb k = Some r -> get_node sb r = Some n -> ndir n = true -> ndata n = []
+}.
+Lemma TreeInv_shape sb sl phi : TreeInv sb sl phi -> TreeShape sb sl phi.
+Proof.
+  intros [A B C D E F G]. split; auto. intros rl rb H. destruct (D rl rb H) as (nl & nb & H1 & H2 & H3 & _). now exists nl, nb.
+Qed.
+
 (* the name a node is bound to *)
 Definition key_of (s : mst) (r : nat) : option str :=
   match find (fun kv => Nat.eqb (snd kv) r) (mdata s) with Some kv => Some (fst kv) | None => None end.
@@ -103,8 +119,8 @@ Proof. intros Hf. unfold phi_next. assert (E : Nat.ltb rl (length (mheap sl)) = 
 (* THE GENERAL LEMMA.  Both path maps evolve by the same renaming rho (plus fresh bindings); the bytes of
    old pairs stay equal; every fresh binding of the layer has, in the base, a binding of the same name to a
    node of the same kind and content. *)
-Theorem TreeInv_step phi sb sl sb' sl' rho :
-  TreeInv sb sl phi -> WF sb' -> WF sl' -> Frame rho sb sb' -> Frame rho sl sl' ->
+Theorem TreeShape_step phi sb sl sb' sl' rho :
+  TreeShape sb sl phi -> WF sb' -> WF sl' -> Frame rho sb sb' -> Frame rho sl sl' ->
   (forall rl rb nl nb, phi rl = Some rb -> get_node sl' rl = Some nl -> get_node sb' rb = Some nb -> ndata nl = ndata nb) ->
   (forall k' rl, lookup sl' k' = Some rl -> fresh_in sl rl ->
      exists rb nl nb, lookup sb' k' = Some rb /\ get_node sl' rl = Some nl /\ get_node sb' rb = Some nb /\
@@ -136,7 +152,7 @@ Proof.
       apply (frame_keep rho sb sb' k' rb Fb). rewrite Er. exact Hb.
   - (* pairs: same kind, same bytes *)
     intros rl rb H. destruct (Hcases rl rb H) as [(Hp & _)|(Hf & k' & Hl & Hb)].
-    + destruct (Tp rl rb Hp) as (nl & nb & Hnl & Hnb & Hd & _).
+    + destruct (Tp rl rb Hp) as (nl & nb & Hnl & Hnb & Hd).
       destruct (fr_nodes _ _ _ Fl rl nl Hnl) as (nl' & Hnl' & Hdl & _).
       destruct (fr_nodes _ _ _ Fb rb nb Hnb) as (nb' & Hnb' & Hdb & _).
       exists nl', nb'. split; [exact Hnl'|]. split; [exact Hnb'|]. split; [congruence|]. exact (Hdata rl rb nl' nb' Hp Hnl' Hnb').
@@ -172,6 +188,16 @@ Proof.
       pose proof (frame_old _ _ _ _ _ _ Fb Hl Hn) as Ho. destruct (rho k') as [k|] eqn:Er; [|discriminate Ho]. cbn [olookup] in Ho.
       rewrite Hdat by congruence. apply (Td k r n Ho Hn). congruence.
 Qed.
+
+Theorem TreeInv_step phi sb sl sb' sl' rho :
+  TreeInv sb sl phi -> WF sb' -> WF sl' -> Frame rho sb sb' -> Frame rho sl sl' ->
+  (forall rl rb nl nb, phi rl = Some rb -> get_node sl' rl = Some nl -> get_node sb' rb = Some nb -> ndata nl = ndata nb) ->
+  (forall k' rl, lookup sl' k' = Some rl -> fresh_in sl rl ->
+     exists rb nl nb, lookup sb' k' = Some rb /\ get_node sl' rl = Some nl /\ get_node sb' rb = Some nb /\
+                      ndir nl = ndir nb /\ ndata nl = ndata nb) ->
+  TreeInv sb' sl' (phi_next phi sl sb' sl') /\
+  (forall rl rb, phi rl = Some rb -> phi_next phi sl sb' sl' rl = Some rb).
+Proof. intros T. apply TreeShape_step. now apply TreeInv_shape. Qed.
 
 (* ------------------------------------------------------------------------------------------ *)
 (* the handle table                                                                            *)
